@@ -1147,7 +1147,10 @@ func EvalExpression(exprSrc string, rootValue interface{}, stdout io.Writer) (*C
 	ev.root = rootCell
 	ev.ruleRoot = rootCell
 	cell, err := ev.evalExpr(expr)
-	if err != nil && err != errExit {
+	if err == errExit || err == errNext {
+		return nil, ev.error(expr.Token(), fmt.Sprintf("%s cannot be used in a root selector", err.Error()))
+	}
+	if err != nil {
 		return nil, err
 	}
 	return cell, nil
